@@ -256,6 +256,15 @@ def sec_run(ctx, rng, case):
         elif rng.random() < 0.12 and ki > 0:
             inner = _clifford_step(rng, n, cirq)
             steps.append({"t": "C", "cond": {"t": "key", "key": keys[int(rng.integers(ki))], "index": -1}, "inner": inner})
+        elif rng.random() < 0.1:
+            # a reset: a stabilizer operation with a hidden random outcome (also ahead of the first measurement)
+            w_ = int(rng.integers(n))
+            if n >= 2 and rng.random() < 0.6:
+                # ... of one half of an entangled pair, so that the hidden outcome decides what the partner shows later
+                o_ = int(rng.choice([x for x in range(n) if x != w_]))
+                steps.append({"t": "U", "spec": "HPow", "p": (1.0, 0.0), "w": (w_,)})
+                steps.append({"t": "U", "spec": "CXPow", "p": (1.0, 0.0), "w": (w_, o_)})
+            steps.append({"t": "K", "spec": "reset_d2", "p": (), "w": (w_,)})
         else:
             steps.append(_clifford_step(rng, n, cirq))
     if ki == 0:
@@ -263,7 +272,18 @@ def sec_run(ctx, rng, case):
     circuit = P.to_circuit(steps, qubits, rng, "greedy")
     ref = I.distribution(I.run(P.to_ref(steps), dims))
     which = int(rng.integers(3))
-    wit = dict(n=n, program=P.describe(steps), sampler=["CliffordSimulator", "CliffordSimulator-nosplit", "StabilizerSampler"][which])
+    # the sampler's repetitions are independent runs: two of them have the product distribution
+    reps = 2 if (which == 2 and len(ref) <= 8 and rng.random() < 0.5) else 1
+    if reps == 2:
+        ref = {(ka, kb): pa * pb for ka, pa in ref.items() for kb, pb in ref.items()}
+        ctx.event("run:two-repetitions")
+    if any(s_["t"] == "K" for s_ in steps):
+        ctx.event("run:with-reset")
+        first_m = min(i for i, s_ in enumerate(steps) if s_["t"] == "M")
+        if reps == 2 and any(s_["t"] == "K" for s_ in steps[:first_m]):
+            ctx.event("run:two-repetitions-with-reset-before-first-measurement")
+    wit = dict(n=n, program=P.describe(steps), sampler=["CliffordSimulator", "CliffordSimulator-nosplit", "StabilizerSampler"][which],
+               repetitions=reps)
 
     def run(rng_obj):
         if which == 0:
@@ -271,10 +291,12 @@ def sec_run(ctx, rng, case):
         elif which == 1:
             res = cirq.CliffordSimulator(seed=rng_obj, split_untangled_states=False).run(circuit, repetitions=1)
         else:
-            res = cirq.StabilizerSampler(seed=rng_obj).run(circuit, repetitions=1)
-        return tuple((k, tuple(tuple(int(x) for x in inst) for inst in res.records[k][0])) for k in sorted(res.records))
+            res = cirq.StabilizerSampler(seed=rng_obj).run(circuit, repetitions=reps)
+        rows = [tuple((k, tuple(tuple(int(x) for x in inst) for inst in res.records[k][r])) for k in sorted(res.records))
+                for r in range(reps)]
+        return rows[0] if reps == 1 else tuple(rows)
 
-    ex = SR.explore(run, max_paths=600, min_branch=1e-9)
+    ex = SR.explore(run, max_paths=600 if reps == 1 else 3000, min_branch=1e-9)
     if ex.over_budget:
         ctx.event("explorer-over-budget")
         return
